@@ -48,6 +48,65 @@ def strip_ptr(ty):
         ty = m.group(1)
 
 
+_SAME_UNIT = {}
+
+
+def same_unit_params(cb):
+    """classes of usize parameters of a crate function that are unit-less by name but are related inside it by operations
+    that need equal units (Rem, Sub, Add, ordering / equality, plain copies between them)"""
+    if cb.id in _SAME_UNIT:
+        return _SAME_UNIT[cb.id]
+    _SAME_UNIT[cb.id] = []
+    pn = cb.param_names()
+    params = [loc for loc in range(1, cb.arg_count + 1) if cb.locals[loc] == "usize" and not (NAME_UNITS.get(pn.get(loc)) or OVERRIDE.get((cb.name, pn.get(loc))))]
+    if len(params) < 2 or cb.kind == "Closure":
+        return []
+    parent = {}
+    def find(x):
+        while parent.get(x, x) != x:
+            x = parent[x]
+        return x
+    def union(a, b):
+        ra, rb = find(a), find(b)
+        if ra != rb:
+            parent[ra] = rb
+    def loc(o):
+        return o["p"]["local"] if o and o.get("k") in ("copy", "move") and all(e["k"] == "field" for e in o["p"]["proj"]) and cb.locals[o["p"]["local"]] in ("usize", "(usize, bool)", "(usize, usize)") else None
+    for _, _, st in cb.stmts():
+        if st["k"] != "assign":
+            continue
+        rv = st["rv"]
+        dl = st["p"]["local"] if cb.locals[st["p"]["local"]] in ("usize", "(usize, bool)") else None
+        if rv["k"] in ("use", "cast"):
+            a = loc(rv["o"])
+            if a is not None and dl is not None:
+                union(a, dl)
+        elif rv["k"] == "binop":
+            a, b2 = loc(rv["l"]), loc(rv["r"])
+            op = rv["op"].replace("WithOverflow", "").replace("Unchecked", "")
+            if op in ("Rem", "Sub", "Add", "Lt", "Le", "Gt", "Ge", "Eq", "Ne") and a is not None and b2 is not None:
+                union(a, b2)
+            if op in ("Rem", "Sub", "Add") and dl is not None:
+                for x in (a, b2):
+                    if x is not None:
+                        union(x, dl)
+    for _, t, fn in cb.calls():
+        # recursion / swap keep the relation
+        if fn and fn["path"] == "core::mem::swap":
+            pass
+        if fn and (cb.facts.crate_fn_for_call(fn) is cb):
+            for i, a in enumerate(t["args"]):
+                la = loc(a)
+                if la is not None and (i + 1) in params:
+                    union(la, i + 1)
+    classes = {}
+    for p_ in params:
+        classes.setdefault(find(p_), set()).add(p_)
+    out = [c for c in classes.values() if len(c) >= 2]
+    _SAME_UNIT[cb.id] = out
+    return out
+
+
 class UBody:
     def __init__(self, body, f, FT):
         self.body, self.b, self.f, self.FT = body, body.d, f, FT
@@ -345,6 +404,14 @@ class UBody:
                             changed |= self.setu(dk, a, "min/max")
                     if fn.get("krate") == self.f.raw["crate"] or fn.get("resolved_krate") == self.f.raw["crate"]:
                         pu, cb = self.callee_params(fn)
+                        # u8: parameters that the callee compares / subtracts / takes remainders of with one another are of one unit
+                        # (a private gcd(a, b), min-max helper ..): the arguments must be, too
+                        if cb is not None:
+                            for cls in same_unit_params(cb):
+                                us = [(i, self.op_unit(t["args"][i - 1])) for i in sorted(cls) if i - 1 < len(t["args"])]
+                                us = [(i, u) for i, u in us if u in (ROW, COL)]
+                                if len({u for _, u in us}) > 1:
+                                    self.err("u8", "%s(%s)" % (name, ",".join(u for _, u in us)), "%s relates its parameters %s to one another (%%, -, <, ==), so they are of one unit, but receives %s: %s" % (name, sorted(cls), [u for _, u in us], ", ".join(self.sh(t["args"][i - 1]) for i, _ in us)), t["span"])
                         if pu:
                             for i, a in enumerate(t["args"]):
                                 if i not in pu:
@@ -366,6 +433,7 @@ class UBody:
 
 def r_units(f):
     R = Result("R-UNITS")
+    _SAME_UNIT.clear()
     FT = field_table(f)
     seeded = 0
     nb = 0
